@@ -607,7 +607,7 @@ func (p *Printer) bare(v *model.Value, inSexp bool) string {
 		}
 		if len(v.Kids) > 0 {
 			// a trailing operator or number must not touch a comment: use plain whitespace first
-			sb.WriteString(p.sepAfter(nil))
+			sb.WriteString(p.sepAfter(v.Kids[len(v.Kids)-1]))
 		} else {
 			sb.WriteString(p.optWS())
 		}
@@ -650,8 +650,11 @@ func (p *Printer) sepAfter(k *model.Value) string {
 	if ws == "" {
 		return ""
 	}
-	if p.C.Flip("ws:comment-adjacent") {
-		return ws
+	if (k == nil || k.Kind != model.Symbol) && p.C.Flip("ws:comment-adjacent") {
+		// the comment (if any) directly follows the token (never after a symbol: an operator
+		// would swallow the comment start): every Ion implementation treats the
+		// start of a comment as a token terminator
+		return strings.TrimLeft(ws, " \t\r\n\v\f")
 	}
 	return " " + ws
 }
@@ -707,6 +710,9 @@ func (p *Printer) AppendLST(spec refsym.LSTSpec) {
 
 func (p *Printer) sep() {
 	if p.B.Len() > 0 {
+		if p.C.Flip("ws:comment-adjacent") {
+			p.B.WriteString(p.comment())
+		}
 		p.B.WriteString(p.reqWS())
 	} else {
 		p.B.WriteString(p.optWS())
